@@ -43,6 +43,7 @@ type Env struct {
 	oldBinds map[string]binding
 	headEnv *Env
 	pending []Term // type facts about quantified terms (not assumed globally)
+	upTo    ssa.Instruction // in atBlk, only instructions before this one are visible
 }
 
 func (fc *FnCtx) pkgTypes() *types.Package {
@@ -204,6 +205,14 @@ func (e *Env) resolve(name string) (binding, bool) {
 			if first && e.header == nil && !e.wholeBlk {
 				instrs = nil
 			}
+			if first && e.upTo != nil {
+				for k, in := range instrs {
+					if in == e.upTo {
+						instrs = instrs[:k]
+						break
+					}
+				}
+			}
 			first = false
 			for i := len(instrs) - 1; i >= 0; i-- {
 				switch x := instrs[i].(type) {
@@ -293,7 +302,7 @@ func ghostType(t string) types.Type {
 	case "str":
 		return types.Typ[types.String]
 	}
-	return types.Typ[types.Int]
+	return specIntType // ghost counters are mathematical integers
 }
 
 func (e *Env) constBinding(o *types.Const) (binding, bool) {
@@ -761,6 +770,14 @@ func (e *Env) evalSelector(x *ast.SelectorExpr) sval {
 		if _, isLocal := e.resolve(id.Name); !isLocal {
 			for _, imp := range e.pkg.Imports() {
 				if imp.Name() == id.Name {
+					if gv, ok := imp.Scope().Lookup(x.Sel.Name).(*types.Var); ok {
+						if sp := fc.eng.spkgs[imp.Path()]; sp != nil {
+							if g, ok := sp.Members[gv.Name()].(*ssa.Global); ok {
+								et := g.Type().Underlying().(*types.Pointer).Elem()
+								return sval{v: e.loadT(et, IntLit(fc.eng.globalIDs[g]), IntLit(0)), t: et}
+							}
+						}
+					}
 					if c, ok := imp.Scope().Lookup(x.Sel.Name).(*types.Const); ok {
 						b, ok := e.constBinding(c)
 						if ok {
@@ -1028,6 +1045,12 @@ func (e *Env) evalCall(x *ast.CallExpr) sval {
 		case "crc32":
 			a := e.eval(x.Args[0])
 			return sval{v: Leaf(mk(SBV(32), "crc32", a.v.T)), t: types.Typ[types.Uint32]}
+		case "sameSlice":
+			a, b := e.eval(x.Args[0]), e.eval(x.Args[1])
+			if a.v.K != KSlice || b.v.K != KSlice {
+				specPanic("sameSlice of non-slices")
+			}
+			return sval{v: Leaf(And(Eq(a.v.Obj(), b.v.Obj()), Eq(a.v.Off(), b.v.Off()), Eq(a.v.Len(), b.v.Len()))), t: boolT}
 		case "sameArray":
 			a, b := e.eval(x.Args[0]), e.eval(x.Args[1])
 			return sval{v: Leaf(Eq(a.v.Obj(), b.v.Obj())), t: boolT}
@@ -1046,6 +1069,56 @@ func (e *Env) evalCall(x *ast.CallExpr) sval {
 				specPanic("fresh of non-reference")
 			}
 			return sval{v: Leaf(Ge(obj, e.old.next)), t: boolT}
+		case "lastcall":
+			// lastcall(name[, i]): the (i-th) result of the most recent call, on this path
+			// prefix, of a function whose qualified name ends in name
+			nm := strings.Trim(exprText(x.Args[0]), "\"")
+			var found *Value
+			var ft types.Type
+			for k, v := range fc.lastCall {
+				if strings.HasSuffix(k, nm) {
+					vv := v
+					found = &vv
+				}
+			}
+			if found == nil {
+				specPanic("lastcall: no call of %s seen", nm)
+			}
+			val := *found
+			if len(x.Args) > 1 {
+				ix := e.eval(x.Args[1])
+				if !ix.isConst || val.K != KTuple || int(ix.c.Int64()) >= len(val.E) {
+					specPanic("lastcall: bad result index")
+				}
+				val = val.E[ix.c.Int64()]
+			}
+			switch val.K {
+			case KIface:
+				ft = types.Universe.Lookup("error").Type()
+			case KLeaf:
+				if val.T.Sort == SBool {
+					ft = types.Typ[types.Bool]
+				} else {
+					ft = types.Typ[types.Int]
+				}
+			default:
+				specPanic("lastcall: unsupported result shape")
+			}
+			return sval{v: val, t: ft}
+		case "isNotExist":
+			a := e.eval(x.Args[0])
+			if a.v.K != KIface {
+				specPanic("isNotExist of non-interface")
+			}
+			return sval{v: Leaf(mk(SBool, "isNotExist", a.v.E[0].T, a.v.E[1].T)), t: boolT}
+		case "hastype":
+			// hastype(x, "pkg.Type"): the dynamic type of interface value x
+			a := e.eval(x.Args[0])
+			nm := strings.Trim(exprText(x.Args[1]), "\"")
+			if a.v.K != KIface {
+				specPanic("hastype of non-interface")
+			}
+			return sval{v: Leaf(Eq(a.v.E[0].T, IntLit(fc.eng.typeIDByName(nm)))), t: boolT}
 		case "buflen":
 			// buflen(b): unread bytes of a *bytes.Buffer
 			a := e.eval(x.Args[0])
@@ -1079,6 +1152,21 @@ func (e *Env) evalCall(x *ast.CallExpr) sval {
 				return sval{v: Leaf(Ite(c, a.v.T, b.v.T)), t: a.t}
 			}
 			return sval{v: Leaf(Ite(c, b.v.T, a.v.T)), t: a.t}
+		}
+		// call of a pure function-typed parameter
+		if fc.c != nil && fc.c.pureParam(id.Name) {
+			if b, ok := e.resolve(id.Name); ok && b.v.K == KLeaf {
+				if sig, isSig := b.t.Underlying().(*types.Signature); isSig && sig.Results().Len() == 1 {
+					var args []Value
+					for k, ae := range x.Args {
+						a := e.coerce(e.eval(ae), sig.Params().At(k).Type())
+						args = append(args, a.v)
+					}
+					if v, ok := fc.applyUF(b.v.T, args, sig.Results().At(0).Type()); ok {
+						return sval{v: v, t: sig.Results().At(0).Type()}
+					}
+				}
+			}
 		}
 		// parameterised predicate?
 		if e.pkg != nil {
@@ -1128,6 +1216,35 @@ func (e *Env) evalCall(x *ast.CallExpr) sval {
 		}
 		// same representation (named array types, etc.)
 		return sval{v: a.v, t: t}
+	}
+	// pure interface method called on a value: recv.Method(args)
+	if sel, ok := x.Fun.(*ast.SelectorExpr); ok {
+		if id, isId := sel.X.(*ast.Ident); isId {
+			if b, found := e.resolve(id.Name); found && b.v.K == KIface {
+				if n, isNamed := b.t.(*types.Named); isNamed {
+					if it, isIface := n.Underlying().(*types.Interface); isIface {
+						for i := 0; i < it.NumMethods(); i++ {
+							m := it.Method(i)
+							if m.Name() != sel.Sel.Name {
+								continue
+							}
+							sig := m.Type().(*types.Signature)
+							if sig.Results().Len() != 1 {
+								break
+							}
+							var args []Value
+							for k, ae := range x.Args {
+								a := e.coerce(e.eval(ae), sig.Params().At(k).Type())
+								args = append(args, a.v)
+							}
+							if v, ok := fc.ifaceMethodUF(n.Obj().Name(), m.Name(), b.v, args, sig.Results().At(0).Type()); ok {
+								return sval{v: v, t: sig.Results().At(0).Type()}
+							}
+						}
+					}
+				}
+			}
+		}
 	}
 	// package-qualified spec function (other package)
 	if sel, ok := x.Fun.(*ast.SelectorExpr); ok {
